@@ -207,7 +207,7 @@ fn program_sat(p: &asp::Program, m: &Ht, values: &[Val]) -> bool { p.rules.iter(
 fn universe(ps: &[&asp::Program]) -> Vec<GroundAtom> {
     let inner = [Val::Int(0), Val::Int(1), Val::Sym("a".into())];
     let mut preds = BTreeSet::new();
-    for p in ps { for q in p.predicates() { preds.insert((q.symbol.clone(), q.arity)); } }
+    for p in ps { preds.extend(crate::own::program_preds(p)); }
     let mut out = Vec::new();
     for (s, n) in preds {
         if n > 3 {
